@@ -87,10 +87,11 @@ Record fixes := {
   fx_F    : bool;   (* C19-not-file-missing: `"F" in mode and os.path.exists(abs_path)` before the isfile/S_ISFIFO test *)
   fx_fifo : bool;   (* C19-fc-fifo: the "c" block's file test gets the S_ISFIFO clause of the plain "f" test *)
   fx_cc   : bool;   (* C19-cc-through-file: the "cc" loop stops at the first EXISTING ancestor (`not os.path.exists(pdir)`) *)
-  fx_lf   : bool    (* C19-list-file-relative: _check_type's fallback no longer enters the config file's directory (Model/C19Cwd.v) *)
+  fx_lf   : bool;   (* C19-list-file-relative: _check_type's fallback no longer enters the config file's directory (Model/C19Cwd.v) *)
+  fx_rp   : bool    (* C19-chdir-lexical-dotdot: change_to_path_dir enters os.path.realpath(path_dir) instead of abspath (Model/C19Cwd.v) *)
 }.
-Definition no_fixes : fixes := {| fx_F := false; fx_fifo := false; fx_cc := false; fx_lf := false |}.
-Definition all_fixes : fixes := {| fx_F := true; fx_fifo := true; fx_cc := true; fx_lf := true |}.
+Definition no_fixes : fixes := {| fx_F := false; fx_fifo := false; fx_cc := false; fx_lf := false; fx_rp := false |}.
+Definition all_fixes : fixes := {| fx_F := true; fx_fifo := true; fx_cc := true; fx_lf := true; fx_rp := true |}.
 
 (* `if "c" in mode:` block, _util.py:598-612. None = fall through to the next statement. *)
 Definition check_c_fx (fxs : fixes) (fl : mfl) (f : facts) : option outcome :=
